@@ -46,6 +46,10 @@ CLAIMS["C18"] = dict(
     text="Rely/guarantee proof of DelayedS3Writer._ensure_init/__call__/finalise over the real code, both in-process (shared object + process lock) and cluster (Variable + distributed Lock) branches: with arbitrary interference by any number of other workers at every shared read and at lock acquisition, create_multipart_upload is issued only under the lock and only when no upload exists (lock invariant re-established at release), initiate()'s precondition holds, every part goes out under the one id, no assert fails. File sink: each accessor returns the value configured under its own keyword else its default (all 16 keyword combinations, symbolic values), maxima above minima.",
     note="assumes sequential consistency / atomic attribute access (GIL) and a linearisable Variable/Lock; Variable.get time-outs are faults outside the quantifier; liveness not addressed; MPUFileSink.__call__/finalise (file-system effects) only by a BOUNDED native check on a scratch directory; abstract counterexamples are concretised by a native turn-based scheduler enumerating 2-worker schedules of the real code",
     technique="contract-based deductive verification with rely/guarantee (lock invariant, havoc at shared reads); z3; replay through a native schedule enumerator", design_ref="DESIGN.md §2 C18")
+CLAIMS["C19"] = dict(
+    text="Record-level deductive proof for XY family, Shape2d, BoundingBox, GeoBox, Tiles, GeoboxTiles (fields symbolic, CRS concrete): == is reflexive/symmetric/transitive, equal hashable objects have equal hashes (hash = uninterpreted function of exactly the compared fields), objects sharing a dask token are equal and equal objects share theirs. CRS: structural obligations on the source -- the CRS cache is a plain dict that nothing ever evicts from, every CRS._crs is a value held by it, the transformer cache key is (id(a._crs), id(b._crs), always_xy) -- so a cached transformer always converts between exactly the two systems; __ne__ is not __eq__; CRS never equals None.",
+    note="Geometry equality/pickling (shapely) and GridSpec's default dask token are NOT decided; CRS equality/hash/token across construction routes and histories involve concrete pyproj objects: BOUNDED native catalogue (4 CRSs x 8 routes; 40 histories in fresh interpreters), with two recorded KNOWN FINDINGS (hash by spelling; cache-key collision / history dependence)",
+    technique=TECH + "; structural (AST) obligations for the cache lifetime invariant", design_ref="DESIGN.md §2 C19")
 NA = {
     "C09": "xarray object-model behaviour (coords/attrs/encoding propagation); no contract within reach can state it - see DESIGN.md C09",
     "C13": "equality of GDAL warps (whole vs chunked) and dask scheduling; no contract within reach - see DESIGN.md C13",
